@@ -1,0 +1,27 @@
+//go:build verif
+
+package components
+
+// Contracts for govc (see /verif/DESIGN.md). Compiled only with -tags verif; comments only.
+// C19: the source components emit exactly the given / matching / read items, once each, in order. "Emit" is stated over
+// the per-port send logs outN/outAt (file ports) and poutN/poutAt (parameter ports) that (*OutPort).Send and
+// (*OutParamPort).Send maintain (proved in package scipipe: every Send appends the item to the log of its port and
+// delivers it to every connected in-port exactly once).
+
+//@ define wfSrcParamOut(b *scipipe.BaseProcess, name string) bool = b.outParamPorts != nil && name in b.outParamPorts && b.outParamPorts[name] != nil && scipipe.wfOutParamPort(b.outParamPorts[name])
+//@ define wfSrcOut(b *scipipe.BaseProcess, name string) bool = b.outPorts != nil && name in b.outPorts && b.outPorts[name] != nil && scipipe.wfOutPort(b.outPorts[name])
+
+//@ func (*ParamSource).Out(p) (res)
+//@   props C19
+//@   ensures def: "out" in p.outParamPorts && res == p.outParamPorts["out"]
+
+//@ func (*ParamSource).Run(p)
+//@   props C19
+//@   requires wf: wfSrcParamOut(p.BaseProcess, "out")
+//@   modifies *
+//@   ensures emits-exactly-the-given-params-in-order[C19]: poutN[old(p.outParamPorts["out"])] == old(poutN[p.outParamPorts["out"]]) + len(old(p.params)) && (forall j int :: 0 <= j && j < len(old(p.params)) ==> poutAt[old(p.outParamPorts["out"])][old(poutN[p.outParamPorts["out"]]) + j] == old(p.params)[j])
+//@   ensures earlier-log-kept[C19]: forall j int :: 0 <= j && j < old(poutN[p.outParamPorts["out"]]) ==> poutAt[old(p.outParamPorts["out"])][j] == old(poutAt[p.outParamPorts["out"]][j])
+//@   loop 0 invariant range: 0 <= $i && $i <= len(p.params)
+//@   loop 0 invariant stable: p == old(p) && p.params == old(p.params) && p.outParamPorts == old(p.outParamPorts) && p.outParamPorts["out"] == old(p.outParamPorts["out"]) && wfSrcParamOut(p.BaseProcess, "out")
+//@   loop 0 invariant so-far: poutN[p.outParamPorts["out"]] == old(poutN[p.outParamPorts["out"]]) + $i && (forall j int :: 0 <= j && j < $i ==> poutAt[p.outParamPorts["out"]][old(poutN[p.outParamPorts["out"]]) + j] == p.params[j])
+//@   loop 0 invariant earlier: forall j int :: 0 <= j && j < old(poutN[p.outParamPorts["out"]]) ==> poutAt[p.outParamPorts["out"]][j] == old(poutAt[p.outParamPorts["out"]][j])
